@@ -106,7 +106,37 @@ func init() {
 			}
 			pick := func() uint32 { return g[r.Intn(len(g))] }
 			for op := 0; op < 6+r.Intn(8); op++ {
-				switch r.Intn(5) {
+				switch r.Intn(7) {
+				case 5: // an access to the hardware register area in between (another backend)
+					io := uint32(r.Intn(0x40))<<16 | 0x2100 + uint32(r.Intn(0x100))
+					if r.Intn(2) == 0 {
+						sysRead(s, io)
+					} else {
+						sysWrite(s, io, byte(r.Intn(256)))
+					}
+					emit(map[string]interface{}{"k": "io", "a": io})
+				case 6: // 24-bit read (three bytes wrapping inside the bank), as the CPU does for long pointers
+					a := pick()
+					if r.Intn(2) == 0 && a&0xF >= 2 {
+						a -= 2 // the picked address is the third byte
+					}
+					okAll := true
+					for i := uint32(0); i < 3; i++ {
+						b := a&0xFF0000 | (a+i)&0xFFFF
+						if _, err := lorom.BusAddressToPak(b); err != nil {
+							okAll = false
+						} else if _, ok := sysRead(s, b); !ok {
+							okAll = false
+						}
+					}
+					if okAll {
+						var v uint32
+						if guard(func() { v = s.Bus.EaRead24_wrap(byte(a>>16), uint16(a)) }) == "" {
+							emit(map[string]interface{}{"k": "rd24", "a": a, "v": []int{int(v & 0xFFFF), int(v >> 16)}})
+						} else {
+							emit(map[string]interface{}{"k": "rd24", "a": a, "v": []int{-1, -1}})
+						}
+					}
 				case 0, 1:
 					a := pick()
 					v, ok := sysRead(s, a)
